@@ -204,6 +204,25 @@ pub fn grid(fam: Fam, ft: Ft) -> Vec<Cell> {
                 }
             }
         }
+        Fam::NormalMeanCv => {
+            for &(m, cv) in &[(1.0, 1.0), (-3.0, 0.5), (100.0, 0.01), (1000.0, 1e-3), (-0.5, 2.0), (7.0, 0.0)] {
+                v.push(c(fam, ft, &[m, cv]));
+            }
+        }
+        Fam::LogNormalMeanCv => {
+            for &(m, cv) in &[(1.0, 1.0), (3.0, 1.3108324944320862), (2.0, 4.0), (10.0, 0.1), (0.5, 0.5), (100.0, 1.2), (1.0, 1.4), (5.0, 0.02), (1e-2, 2.5)] {
+                v.push(c(fam, ft, &[m, cv]));
+            }
+        }
+        Fam::PertMean => {
+            for &(mn, mx) in &[(0.0, 1.0), (-10.0, 10.0), (1.0, 5.0), (-3.0, -1.0), (100.0, 101.0)] {
+                for &(t, sh) in &[(0.5, 4.0), (0.3, 4.0), (0.7, 1.0), (0.45, 5.0), (0.6, 20.0), (0.35, 2.5)] {
+                    // t is the mode fraction; the mean argument follows from the documented relation
+                    let mode = mn + t * (mx - mn);
+                    v.push(c(fam, ft, &[mn, mx, (mn + sh * mode + mx) / (sh + 2.0), sh]));
+                }
+            }
+        }
         Fam::Binomial => {
             let ps = [0.0, 2f64.powi(-54), 2f64.powi(-53), 0.5f64.next_down(), 0.5, 0.5f64.next_up(), 1.0 - 2f64.powi(-53), 1.0, 0.1, 0.9, 1e-9];
             for &n in &[0u64, 1, 2, 20, 1000, 1 << 53, 1 << 62] {
@@ -427,6 +446,23 @@ pub fn random_cell(fam: Fam, ft: Ft, r: &mut BaseRng) -> Cell {
             let a = ft.rnd(a);
             c(fam, ft, &[a, a * ratio])
         }
+        Fam::NormalMeanCv => {
+            let m = uni(r, -1.0, 1.0) * 1e3;
+            let m = if m == 0.0 { 1.0 } else { m };
+            // P4: |mean|/sd <= 100 (f32) / 1e6 (f64)  <=>  cv >= 1/ratio
+            c(fam, ft, &[m, logu(r, (1.0 / p4(ft)).max(1e-3), 10.0)])
+        }
+        Fam::LogNormalMeanCv => c(fam, ft, &[logu(r, 1e-2, 1e2), logu(r, 1e-2, 10.0)]),
+        Fam::PertMean => {
+            let a = uni(r, -1e2, 1e2);
+            let range = logu(r, 0.5, 1e2);
+            let sh = if r.random_range(0..4) == 0 { 4.0 } else { uni(r, 0.5, 50.0) };
+            // mean such that the implied mode lies safely inside: mode = min + t range, t in [0.1, 0.9]
+            let t = uni(r, 0.1, 0.9);
+            let mode = a + t * range;
+            let mean = (a + sh * mode + (a + range)) / (sh + 2.0);
+            c(fam, ft, &[a, a + range, mean, sh])
+        }
         Fam::Binomial => {
             let n = match r.random_range(0..4) {
                 0 => r.random_range(0..=30u64),
@@ -609,6 +645,14 @@ pub fn dirichlet_alphas(ft: Ft, r: &mut BaseRng, count: usize) -> Vec<Vec<f64>> 
         vec![lo, hi],
         vec![lo, lo, hi, 1.0],
         vec![2.0; 8],
+        // exactly at the switch with tiny companions (both methods must stay NaN-free)
+        vec![0.1, 0.001_f64.max(lo)],
+        vec![0.002_f64.max(lo), 0.1, 0.001_f64.max(lo)],
+        // long vectors: odd / even lengths around the pairwise-summation sizes
+        (0..33).map(|i| 0.5 + (i % 5) as f64).collect(),
+        (0..45).map(|i| 0.3 + (i % 7) as f64 * 0.4).collect(),
+        (0..63).map(|i| 1.0 + (i % 3) as f64).collect(),
+        vec![1.5; 64],
     ];
     for _ in 0..count {
         let len = if r.random_range(0..4) == 0 { r.random_range(2..=64usize) } else { r.random_range(2..=8usize) };
